@@ -657,6 +657,7 @@ class Worker(object):
             jitter.vm.add_memory_page(addr, access, bytes.fromhex(hexdata), name)
         for k, v in scn.get("regs", {}).items():
             setattr(jitter.cpu, k, v)
+        self.initial_regs = dict(jitter.cpu.get_gpreg())
         if scn.get("options"):
             jitter.jit.set_options(**scn["options"])
         if self.log_mn:
@@ -785,6 +786,7 @@ class Worker(object):
                 if _name == "code" and not (len(op) > 1 and op[1] == "all"):
                     continue        # rewriting code would (legitimately) invalidate its translations
                 j.vm.set_mem(addr, bytes.fromhex(hexdata))
+            j.cpu.set_gpreg(dict(self.initial_regs))      # every register, not only those the scenario sets
             for k, v in self.scn.get("regs", {}).items():
                 setattr(j.cpu, k, v)
         elif name == "snap":
